@@ -500,6 +500,7 @@ func run(c *enum.Ctx) {
 		r := &runner{m}
 		nt := enum.NontrivialSet{}
 		for i := sh; i < len(cases); i += 64 {
+			c.Doing(sh, cases[i])
 			c.Eval()
 			check(c, r, cases[i])
 			nt.AddH(enum.Hash64(enum.J(cases[i])))
